@@ -427,8 +427,8 @@ def decode (H : Bytes → Bytes) (buf key : Bytes) : Option Msg := (decodeX H bu
 
 /-! ## Does every attribute lie inside the packet? -/
 
-/-- plain TLV walk over the body (`fuel` ≥ number of attributes): every attribute header, value and padding
-lies inside the bytes that are there.  When this is false the C++ decoder may have copied fewer bytes than an
+/-- plain TLV walk over the body (`fuel` ≥ number of attributes), stopping at the first FINGERPRINT (the decoder
+returns there): every attribute header, value and padding lies inside the bytes that are there.  When this is false the C++ decoder may have copied fewer bytes than an
 attribute announced, and the not-overwritten part of DATA / NONCE / RESERVATION-TOKEN / ICE-CONTROLL* values and of
 IPv6 addresses is indeterminate (uninitialised memory). -/
 def tlvFitsGo : Nat → Bytes → Bool
@@ -442,7 +442,9 @@ def tlvFitsGo : Nat → Bytes → Bool
         let r0 := rdU16 s
         let r1 := rdU16 r0.2
         let n := r1.1 + pad4 r1.1
-        if r1.2.length < n then false else tlvFitsGo fuel (r1.2.drop n)
+        if r1.2.length < n then false
+        else if r0.1 = Stun.fingerprint then true
+        else tlvFitsGo fuel (r1.2.drop n)
 
 def tlvFits (buf : Bytes) : Bool := tlvFitsGo buf.length (buf.drop Stun.headerSize)
 
@@ -479,8 +481,8 @@ preconditions of the setters, and values the wire format can carry at all:
 * error code 0 (absent, then with empty phrase) or below 25600 (class and number fit one byte each);
 * ICE tie-breakers empty or 8 bytes and not both (encode writes only one);
 * reservation token of 8 bytes (`setReservationToken` resizes to 8);
-* strings that survive `QString::fromUtf8(QByteArray)` (see `StrOK`);
-* every length fits its 16-bit field (the body stays below 65536 - 32 bytes). -/
+* every length fits its 16-bit field (the body stays below 65536 - 32 bytes).
+Nothing is demanded of the strings here: what happens to them is described by `view`. -/
 structure WFMsg (m : Msg) : Prop where
   type : m.type < 65536
   cookie : m.cookie < 4294967296
@@ -495,18 +497,26 @@ structure WFMsg (m : Msg) : Prop where
   changeRequest : optAll m.changeRequest (· < 4294967296)
   errLo : 0 ≤ m.errorCode
   errHi : m.errorCode < 25600
-  errPhrase : StrOK m.errorPhrase
   errNone : m.errorCode = 0 → m.errorPhrase = []
   priority : optAll m.priority (· < 4294967296)
   channelNumber : optAll m.channelNumber (· < 65536)
   lifetime : optAll m.lifetime (· < 4294967296)
-  realm : optAll m.realm StrOK
   requestedTransport : optAll m.requestedTransport (· < 256)
   reservationToken : optAll m.reservationToken (·.length = 8)
-  software : optAll m.software StrOK
-  username : optAll m.username StrOK
   iceControlling : m.iceControlling = [] ∨ m.iceControlling.length = 8
   iceControlled : m.iceControlled = [] ∨ (m.iceControlled.length = 8 ∧ m.iceControlling = [])
   size : (body m).length + 32 < 65536
+
+/-- What a message looks like after `decode (encode m)`: string attributes went through
+`QString::fromUtf8(const QByteArray &)` (cut at the first NUL, leading BOM dropped); everything else is unchanged. -/
+def view (m : Msg) : Msg :=
+  { m with errorPhrase := qtStr m.errorPhrase, realm := m.realm.map qtStr,
+           software := m.software.map qtStr, username := m.username.map qtStr }
+
+/-- every string of the message comes back unchanged (well-formed UTF-8, no NUL, no leading BOM) -/
+def StrsOK (m : Msg) : Prop :=
+  StrOK m.errorPhrase ∧ optAll m.realm StrOK ∧ optAll m.software StrOK ∧ optAll m.username StrOK
+
+instance (m : Msg) : Decidable (StrsOK m) := by unfold StrsOK; exact inferInstance
 
 end Qx.C14
